@@ -253,6 +253,35 @@ MayIgnoreOrStep(sys, s, a) ==
      /\ LET h == OnTimer(sys, a.id, s.actors[a.id + 1], a.t) IN
         ~h.touch /\ Len(h.cmds) = 1 /\ h.cmds[1].k = "set" /\ h.cmds[1].t = a.t
 
+
+-----------------------------------------------------------------------------
+(***************************************************************************)
+(* C10: the image of a state under a permutation of actor identities.      *)
+(* plan[i+1] = new Id of actor i.  Applied CONSISTENTLY: actor slots,      *)
+(* timers, random choices and crash flags move to the new index; message   *)
+(* endpoints are renamed.  (Local states, message payloads and the history *)
+(* of the table systems carry no Ids.)                                     *)
+(***************************************************************************)
+PId(plan, id) == IF id + 1 \in DOMAIN plan THEN plan[id + 1] ELSE id
+PEnv(plan, e) == Env(PId(plan, e.src), PId(plan, e.dst), e.msg)
+PSeq(plan, xs) == [p \in DOMAIN xs |-> xs[CHOOSE i \in DOMAIN plan : plan[i] = p - 1]]
+Permute(plan, s) ==
+  [actors |-> PSeq(plan, s.actors),
+   net |-> [kind |-> s.net.kind,
+            set |-> {PEnv(plan, e) : e \in s.net.set},
+            last |-> {PEnv(plan, e) : e \in s.net.last},
+            bag |-> {<<PEnv(plan, p[1]), p[2]>> : p \in s.net.bag},
+            flows |-> {<<PId(plan, f[1]), PId(plan, f[2]), f[3]>> : f \in s.net.flows}],
+   timers |-> PSeq(plan, s.timers),
+   choices |-> PSeq(plan, s.choices),
+   crashed |-> PSeq(plan, s.crashed),
+   hist |-> s.hist]
+(* the stable sorting permutation of the actor states (Symmetry!Plan) *)
+SortPlan(vals) ==
+  [i \in DOMAIN vals |->
+     Cardinality({j \in DOMAIN vals : vals[j] < vals[i]}) + Cardinality({j \in DOMAIN vals : j < i /\ vals[j] = vals[i]})]
+Representative(s) == Permute(SortPlan(s.actors), s)
+
 -----------------------------------------------------------------------------
 (* Abstraction of a JSON projection of a real state / action *)
 
